@@ -392,19 +392,23 @@ def makeAppResponses (r : Resp.Response) (action : AppAction) : List AppResp :=
   r.apps.map fun a =>
     { id := a.id, cohort := a.cohort, userCounting := r.daystart.bind (·.elapsedDays), result := action }
 
+/-- Is this the plan whose first-seen time is on record? -/
+def samePlan (w : World) (planId : Bytes) : Bool :=
+  match w.store.getString kInstallPlanId with
+  | some prev => prev == planId
+  | none => false
+
+/-- A different plan: record its id and first-seen time (both or neither), and commit. -/
+def recordNewPlan (planId : Bytes) (now : Int) (w : World) : Int × World :=
+  if !(storeOp (.set kInstallPlanId (.str planId)) w).1 then (now, (storeOp (.set kInstallPlanId (.str planId)) w).2)
+  else if !(setTime kFirstSeen now (storeOp (.set kInstallPlanId (.str planId)) w).2).1 then
+    (now, storeOp_ (.remove kInstallPlanId) (setTime kFirstSeen now (storeOp (.set kInstallPlanId (.str planId)) w).2).2)
+  else (now, storeOp_ .commit (setTime kFirstSeen now (storeOp (.set kInstallPlanId (.str planId)) w).2).2)
+
 /-- `record_update_first_seen_time`. -/
 def recordFirstSeen (planId : Bytes) (now : Int) (w : World) : Int × World :=
-  let same := match w.store.getString kInstallPlanId with
-    | some prev => prev == planId
-    | none => false
-  if same then ((w.store.getTime kFirstSeen).getD now, w)
-  else
-    let (ok, w) := storeOp (.set kInstallPlanId (.str planId)) w
-    if !ok then (now, w)
-    else
-      let (ok2, w) := setTime kFirstSeen now w
-      if !ok2 then (now, storeOp_ (.remove kInstallPlanId) w)
-      else (now, storeOp_ .commit w)
+  if samePlan w planId then ((w.store.getTime kFirstSeen).getD now, w)
+  else recordNewPlan planId now w
 
 def planIdText (n : Nat) : Bytes := Bytes.ofString "plan-" ++ Dec.render n
 
@@ -437,117 +441,194 @@ def alignResults (apps : List Resp.App) (results : List AppResult) : List AppAct
       | [] => .noUpdate :: alignResults rest []          -- contract violation (Rust would panic)
     else .noUpdate :: alignResults rest results
 
-/-- `perform_update_check`. `none` in the first component means the response body is outside the
-model's JSON domain. -/
-def performUpdateCheck (params : RequestParams) (apps : List App) (w : World) :
-    Option (Except CheckErr CheckOk) × World :=
-  let w := yieldEv (.state (.checking params.source)) w
-  let w := reportCheckInterval params.source w
+def isOffered (a : Resp.App) : Bool :=
+  match a.updateCheck with
+  | some u => u.status == .ok
+  | none => false
+
+def offeredApps (r : Resp.Response) : List Resp.App := r.apps.filter isOffered
+
+abbrev CheckResult := Option (Except CheckErr CheckOk)
+
+/-- The body could not be parsed: ErrorCheckingForUpdate, a parse-error event for all apps. -/
+def parseFailedPhase (params : RequestParams) (apps : List App) (session : Nat) (w : World) : CheckResult × World :=
+  let w := yieldEv (.state .errorChecking) w
+  let w := reportEvent params (eventError 0) apps session (apps.map fun a => (a.id, none)) none w
+  (some (.error .responseParser), w)
+
+/-- No app was offered an update. -/
+def noUpdatePhase (response : Resp.Response) (w : World) : CheckResult × World :=
+  let w := yieldEv (.state .noUpdate) w
+  (some (.ok ⟨makeAppResponses response .noUpdate, false⟩), w)
+
+/-- The installer could not make a plan out of the response. -/
+def planFailedPhase (params : RequestParams) (apps : List App) (session : Nat)
+    (nv : List (Bytes × Option Bytes)) (w : World) : CheckResult × World :=
+  let w := yieldEv (.state .installing) w
+  let w := yieldEv (.state .installationError) w
+  let w := reportEvent params (eventError 1) apps session nv none w
+  (some (.error .installPlan), w)
+
+def deferredPhase (params : RequestParams) (apps : List App) (session : Nat)
+    (nv : List (Bytes × Option Bytes)) (response : Resp.Response) (w : World) : CheckResult × World :=
+  let w := reportEvent params eventDeferred apps session nv none w
+  let w := yieldEv (.state .deferred) w
+  (some (.ok ⟨makeAppResponses response .deferredByPolicy, false⟩), w)
+
+def deniedPhase (params : RequestParams) (apps : List App) (session : Nat)
+    (nv : List (Bytes × Option Bytes)) (response : Resp.Response) (w : World) : CheckResult × World :=
+  let w := reportEvent params (eventError 3) apps session nv none w
+  (some (.ok ⟨makeAppResponses response .deniedByPolicy, false⟩), w)
+
+def noFailure (results : List AppResult) : Bool :=
+  results.all fun r => match r with
+    | .failed _ => false
+    | _ => true
+
+/-- The apps of the set that were offered an update, with the response entry and the installer's
+result for each (`zip`, unknown app ids skipped). -/
+def knownResults (apps : List App) (response : Resp.Response) (results : List AppResult) :
+    List (App × Resp.App × AppResult) :=
+  ((offeredApps response).zip results).filterMap fun (ra, r) =>
+    match apps.find? (fun a => a.id == ra.id) with
+    | some a => some (a, ra, r)
+    | none => none
+
+def resultEvents (known : List (App × Resp.App × AppResult)) (installNs : Option Nat) : List (App × Omaha.Event) :=
+  known.map fun (a, ra, r) =>
+    (a, { resultEvent r with previousVersion := some (Version.print a.version),
+                              nextVersion := ra.manifestVersion,
+                              downloadTimeMs := installNs.bind durationMs })
+
+def installedApps (known : List (App × Resp.App × AppResult)) : List App :=
+  known.filterMap fun (a, _, r) => match r with
+    | .installed => some a
+    | _ => none
+
+/-- The per-app result report: one request carrying one event per known offered app. -/
+def reportResults (params : RequestParams) (evs : List (App × Omaha.Event)) (session : Nat) (w : World) : World :=
+  let b : Request.Builder := { params := params }
+  let b := evs.foldl (fun b (a, e) => b.apply (.event a e)) b
+  let b := { b with sessionId := some (guidBytes session) }
+  let (b, w) := withRequestId b w
+  let (res, w) := omahaRequest .eventReport b w
+  match res with
+  | .ok _ => w
+  | .error _ => evs.foldl (fun w (_, e) => metric (.eventLost e) w) w
+
+def failedMessages (results : List AppResult) : List Nat :=
+  results.filterMap fun r => match r with
+    | .failed m => some m
+    | _ => none
+
+/-- The system app's target version (manifest version, or "UNKNOWN"), when the system app was
+offered an update. -/
+def setTargetVersion (nv : List (Bytes × Option Bytes)) (w : World) : World :=
+  match lookup w.sysApp nv with
+  | some next => storeOp_ (.set kTargetVersion (.str (next.getD (Bytes.ofString "UNKNOWN")))) w
+  | none => w
+
+def firstSeenMetric (firstSeen finish : Int) (w : World) : World :=
+  if firstSeen ≤ finish then metric (.successfulUpdateFromFirstSeen (finish - firstSeen).toNat) w else w
+
+/-- After an install with no failed app: first-seen metric, finish time and the system app's
+target version recorded durably, then the reboot-needed question. -/
+def recordFinish (planId : Nat) (firstSeen finish : Int) (nv : List (Bytes × Option Bytes)) (w : World) : Bool × World :=
+  let w4 := storeOp_ .commit (setTargetVersion nv (setTime kFinishTime finish (firstSeenMetric firstSeen finish w)).2)
+  (w4.env.rebootNeeded, emit (.policyRebootNeeded planId w4.env.rebootNeeded) w4)
+
+/-- `perform_install` joined with the progress forwarding: the call, every progress value in
+order, then the clock advance of the install. -/
+def runInstall (planId : Nat) (w : World) : World :=
+  tick w.env.installDt
+    (w.env.progress.foldl (fun w k => yieldEv (.progress k) w) (emit (.install planId w.env.progress w.env.results) w))
+
+/-- The update-duration metric (when the wall clock did not go backwards). -/
+def durationMetric (startWall : Int) (results : List AppResult) (w : World) : Option Nat × World :=
+  if startWall ≤ w.clock.wall then
+    (some (w.clock.wall - startWall).toNat,
+     metric (if noFailure results then .successfulUpdateDuration (w.clock.wall - startWall).toNat
+             else .failedUpdateDuration (w.clock.wall - startWall).toNat) w)
+  else (none, w)
+
+/-- The reports after an install: one request with the per-app result events, then
+UpdateComplete for the apps that installed (if any). -/
+def reportInstall (params : RequestParams) (apps : List App) (session : Nat) (nv : List (Bytes × Option Bytes))
+    (response : Resp.Response) (results : List AppResult) (installNs : Option Nat) (w : World) : World :=
+  let known := knownResults apps response results
+  let w := reportResults params (resultEvents known installNs) session w
+  if (installedApps known).isEmpty then w
+  else reportEvent params (eventSuccess 3) (installedApps known) session nv installNs w
+
+def installResponses (response : Resp.Response) (results : List AppResult) : List AppResp :=
+  (response.apps.zip (alignResults response.apps results)).map fun (a, act) =>
+    ({ id := a.id, cohort := a.cohort, userCounting := response.daystart.bind (·.elapsedDays),
+       result := act } : AppResp)
+
+/-- The end of the install path: installer errors announced and InstallationError, or the finish
+record and the reboot question. -/
+def finishInstall (planId : Nat) (firstSeen finish : Int) (nv : List (Bytes × Option Bytes))
+    (response : Resp.Response) (results : List AppResult) (w : World) : CheckResult × World :=
+  if !(failedMessages results).isEmpty then
+    (some (.ok ⟨installResponses response results, false⟩),
+     yieldEv (.state .installationError) ((failedMessages results).foldl (fun w m => yieldEv (.installerError m) w) w))
+  else
+    (some (.ok ⟨installResponses response results, (recordFinish planId firstSeen finish nv w).1⟩),
+     (recordFinish planId firstSeen finish nv w).2)
+
+/-- The policy approved: install, report, record. -/
+def installPhase (params : RequestParams) (apps : List App) (session : Nat)
+    (nv : List (Bytes × Option Bytes)) (response : Resp.Response) (planId : Nat) (w : World) : CheckResult × World :=
+  let w1 := reportEvent params (eventSuccess 13) apps session nv none (yieldEv (.state .installing) w)
+  let r2 := recordFirstSeen (planIdText planId) w1.clock.wall w1
+  let w3 := runInstall planId r2.2
+  let r4 := durationMetric w1.clock.wall r2.2.env.results w3
+  let w5 := reportInstall params apps session nv response r2.2.env.results r4.1 r4.2
+  finishInstall planId r2.1 w3.clock.wall nv response r2.2.env.results w5
+
+/-- A usable response offered an update to at least one app: plan, policy, then one of the four
+continuations. -/
+def updatePhase (params : RequestParams) (apps : List App) (session : Nat) (response : Resp.Response)
+    (w : World) : CheckResult × World :=
+  let nv := nextVersions response
+  let w := emit (.plan params.source w.cup.isSome w.env.plan) w
+  match w.env.plan with
+  | none => planFailedPhase params apps session nv w
+  | some planId =>
+    let w := emit (.policyCanStart planId w.env.canStart) w
+    match w.env.canStart with
+    | .deferred => deferredPhase params apps session nv response w
+    | .denied => deniedPhase params apps session nv response w
+    | .ok => installPhase params apps session nv response planId w
+
+/-- What is done with the body of a successful update-check exchange. `none` in the first component
+means the body is outside the model's JSON domain. -/
+def responsePhase (params : RequestParams) (apps : List App) (session : Nat) (body : Bytes) (w : World) :
+    CheckResult × World :=
+  match Resp.parseJsonResponse body with
+  | .outside => (none, w)
+  | .err => parseFailedPhase params apps session w
+  | .ok response =>
+    let w := yieldEv (.serverResponse response) w
+    if (offeredApps response).isEmpty then noUpdatePhase response w
+    else updatePhase params apps session response w
+
+/-- The request of a check: all apps with update check and ping, one session id. -/
+def checkBuilder (params : RequestParams) (apps : List App) (session : Nat) : Request.Builder :=
   let b : Request.Builder := { params := params }
   let b := apps.foldl (fun b app => (b.apply (.updateCheck app)).apply (.ping app)) b
+  { b with sessionId := some (guidBytes session) }
+
+/-- `perform_update_check`. -/
+def performUpdateCheck (params : RequestParams) (apps : List App) (w : World) : CheckResult × World :=
+  let w := yieldEv (.state (.checking params.source)) w
+  let w := reportCheckInterval params.source w
   let (session, w) := nextGuid w
-  let b := { b with sessionId := some (guidBytes session) }
-  let (res, attempts, w) := attemptLoop 3 1 b w
+  let (res, attempts, w) := attemptLoop 3 1 (checkBuilder params apps session) w
   let w := metric (.requestsPerCheck attempts (isOk res)) w
   match res with
   | .error f => (some (.error (.omahaRequest f.err)), w)
-  | .ok body =>
-    match Resp.parseJsonResponse body with
-    | .outside => (none, w)
-    | .err =>
-      let w := yieldEv (.state .errorChecking) w
-      let w := reportEvent params (eventError 0) apps session (apps.map fun a => (a.id, none)) none w
-      (some (.error .responseParser), w)
-    | .ok response =>
-      let w := yieldEv (.serverResponse response) w
-      let nv := nextVersions response
-      let offered := response.apps.filter fun a => match a.updateCheck with
-        | some u => u.status == .ok
-        | none => false
-      if offered.isEmpty then
-        let w := yieldEv (.state .noUpdate) w
-        (some (.ok ⟨makeAppResponses response .noUpdate, false⟩), w)
-      else
-        let metaOk := w.cup.isSome
-        let w := emit (.plan params.source metaOk w.env.plan) w
-        match w.env.plan with
-        | none =>
-          let w := yieldEv (.state .installing) w
-          let w := yieldEv (.state .installationError) w
-          let w := reportEvent params (eventError 1) apps session nv none w
-          (some (.error .installPlan), w)
-        | some planId =>
-          let w := emit (.policyCanStart planId w.env.canStart) w
-          match w.env.canStart with
-          | .deferred =>
-            let w := reportEvent params eventDeferred apps session nv none w
-            let w := yieldEv (.state .deferred) w
-            (some (.ok ⟨makeAppResponses response .deferredByPolicy, false⟩), w)
-          | .denied =>
-            let w := reportEvent params (eventError 3) apps session nv none w
-            (some (.ok ⟨makeAppResponses response .deniedByPolicy, false⟩), w)
-          | .ok =>
-            let w := yieldEv (.state .installing) w
-            let w := reportEvent params (eventSuccess 13) apps session nv none w
-            let startWall := w.clock.wall
-            let (firstSeen, w) := recordFirstSeen (planIdText planId) startWall w
-            -- the install, with progress delivered before its outcome is acted on
-            let results := w.env.results
-            let w := emit (.install planId w.env.progress results) w
-            let w := w.env.progress.foldl (fun w k => yieldEv (.progress k) w) w
-            let w := tick w.env.installDt w
-            let noFail := results.all fun r => match r with
-              | .failed _ => false
-              | _ => true
-            let finish := w.clock.wall
-            let (installNs, w) :=
-              if startWall ≤ finish then
-                let d := (finish - startWall).toNat
-                (some d, metric (if noFail then .successfulUpdateDuration d else .failedUpdateDuration d) w)
-              else (none, w)
-            -- per-app result events (known apps only), one report
-            let b : Request.Builder := { params := params }
-            let pairs := offered.zip results
-            let known := pairs.filterMap fun (ra, r) =>
-              match apps.find? (fun a => a.id == ra.id) with
-              | some a => some (a, ra, r)
-              | none => none
-            let evs := known.map fun (a, ra, r) =>
-              (a, { resultEvent r with previousVersion := some (Version.print a.version),
-                                        nextVersion := ra.manifestVersion,
-                                        downloadTimeMs := installNs.bind durationMs })
-            let b := evs.foldl (fun b (a, e) => b.apply (.event a e)) b
-            let installedApps := known.filterMap fun (a, _, r) => match r with
-              | .installed => some a
-              | _ => none
-            let b := { b with sessionId := some (guidBytes session) }
-            let (b, w) := withRequestId b w
-            let (res, w) := omahaRequest .eventReport b w
-            let w := match res with
-              | .ok _ => w
-              | .error _ => evs.foldl (fun w (_, e) => metric (.eventLost e) w) w
-            let w := if installedApps.isEmpty then w
-              else reportEvent params (eventSuccess 3) installedApps session nv installNs w
-            let actions := alignResults response.apps results
-            let responses := (response.apps.zip actions).map fun (a, act) =>
-              ({ id := a.id, cohort := a.cohort, userCounting := response.daystart.bind (·.elapsedDays),
-                 result := act } : AppResp)
-            let errors := results.filterMap fun r => match r with
-              | .failed m => some m
-              | _ => none
-            if !errors.isEmpty then
-              let w := errors.foldl (fun w m => yieldEv (.installerError m) w) w
-              let w := yieldEv (.state .installationError) w
-              (some (.ok ⟨responses, false⟩), w)
-            else
-              let w := if firstSeen ≤ finish then metric (.successfulUpdateFromFirstSeen (finish - firstSeen).toNat) w else w
-              let w := (setTime kFinishTime finish w).2
-              let w := match lookup w.sysApp nv with
-                | some next => storeOp_ (.set kTargetVersion (.str (next.getD (Bytes.ofString "UNKNOWN")))) w
-                | none => w
-              let w := storeOp_ .commit w
-              let w := emit (.policyRebootNeeded planId w.env.rebootNeeded) w
-              (some (.ok ⟨responses, w.env.rebootNeeded⟩), w)
+  | .ok body => responsePhase params apps session body w
 
 /-- `Cohort::update_from_omaha` and `AppSetExt::update_from_omaha`. -/
 def updateCohort (c o : Cohort) : Cohort :=
